@@ -16,6 +16,7 @@ mod c04;
 mod c05;
 mod c16;
 mod c01;
+mod c03;
 
 pub struct Budget {
     pub end: Instant,
@@ -38,6 +39,7 @@ fn run_one(pid: &str, input: &Value) -> Option<Value> {
         "C05" => c05::run(&input),
         "C16" => c16::run(&input),
         "C01" | "C08" => c01::run(&input),
+        "C03" | "C13" => c03::run(&input),
         _ => None,
     });
     match r {
@@ -64,6 +66,7 @@ fn gen(pid: &str, r: &mut rng::Rng) -> Option<Value> {
         "C05" => Some(c05::gen(r)),
         "C16" => Some(c16::gen(r)),
         "C01" | "C08" => Some(c01::gen(r)),
+        "C03" | "C13" => Some(c03::gen(r)),
         _ => None,
     }
 }
